@@ -509,11 +509,19 @@ fn evaluate<M: Matcher>(p: &Prep, m: &M, answers: &[String], ctx: &mut Ctx) {
     let strategies: Vec<(Strategy, bool, String)> = vec![
         (Strategy::Reader(1), false, "reader1".to_string()),
         (Strategy::Reader(chunk2), false, format!("reader{}", chunk2)),
+        // the same reader strategies with a 7-byte roll buffer: the buffer rolls / grows between callbacks, so a
+        // stop or an error lands before, between and after refills (seeded changes C16-2-1, C02-1-1, C03-1-1)
+        (Strategy::Reader(1), false, "reader1-small".to_string()),
+        (Strategy::Reader(chunk2), false, format!("reader{}-small", chunk2)),
         (Strategy::Path(file.clone()), false, "path-nommap".to_string()),
         (Strategy::Path(file.clone()), true, "path-mmap".to_string()),
     ];
     for (st, mmap, name) in &strategies {
-        let s = if *mmap { &mut ss.mmap } else { &mut ss.plain };
+        let small = name.ends_with("-small");
+        // (the small-capacity searcher is built afresh for every run: a reused one keeps the capacity its buffer has
+        // grown to, and how much is read at once decides when a NUL is noticed and what an early finish counts)
+        let mut fresh_small = cfg.searcher_small();
+        let s = if *mmap { &mut ss.mmap } else if small { &mut fresh_small } else { &mut ss.plain };
         let e_s = run_with(s, m, input, Script::All, st).0;
         let (evs, _) = split_run(&e_s);
         let ns = evs.len();
@@ -525,11 +533,12 @@ fn evaluate<M: Matcher>(p: &Prep, m: &M, answers: &[String], ctx: &mut Ctx) {
         // ChunkReader(n) returns at most n bytes per call = the read script `ret n` repeated.
         let reader_model: Option<String> = match (st, &p.m) {
             (Strategy::Reader(nchunk), AnyM::Lit(_)) if input.len() <= 600 => Some(format!(
-                "c16.rbl {} {} {} (script {}) - -",
+                "c16.rbl {} {} {} (script {}) {} -",
                 cfg.effective().to_sx(),
                 p.msx,
                 hex(input),
-                vec![nchunk.to_string(); input.len() + 8].join(" ")
+                vec![nchunk.to_string(); input.len() + 8].join(" "),
+                if small { SMALL_CAP.to_string() } else { "-".to_string() }
             )),
             // search_path without memory maps reads the file through the same decoder + roll buffer; a File returns
             // min(free space, rest of the file) per read call = the model's reader with an empty script
@@ -578,6 +587,9 @@ fn evaluate<M: Matcher>(p: &Prep, m: &M, answers: &[String], ctx: &mut Ctx) {
             let (k, is_err) = script_parts(sc);
             if k >= ns {
                 continue;
+            }
+            if small {
+                *s = cfg.searcher_small();
             }
             let r = run_with(s, m, input, sc, st).0;
             ctx.rep.eval();
